@@ -20,7 +20,7 @@ def iterVarToks : IterVar → List Tok
   | .single n => [.word n]
   | .tuple ns => .lpar :: (ns.map Tok.word).intersperse .comma ++ [.rpar]
 
-/-- is this the call the printer writes as `from..to` / `from..=to`? -/
+/-- is this the call the printer writes as `from..to` / `from..=to` where an iterator is expected? -/
 def isRangeSugar (n : String) (args : List PExp) : Bool :=
   match n, args with
   | "range", [_, _, .bool _] => true
@@ -74,7 +74,8 @@ def fmtToksArgs : List PExp → List Tok
   | [] => []
   | [a] => fmtToks a
   | a :: b :: rest => fmtToks a ++ .comma :: fmtToksArgs (b :: rest)
-/-- indexes of a compound variable: a name, an integer, anything else in braces -/
+/-- indexes of a compound variable: a name, an integer, anything else in braces (a decimal literal of the fragment
+has a fractional part, a string of the fragment is no name fragment: both in braces) -/
 def fmtToksIdx : List PExp → List Tok
   | [] => []
   | .var i :: es => .us :: .word i :: fmtToksIdx es
@@ -117,9 +118,10 @@ def printableIterVar : IterVar → Bool
 mutual
 /-- THE PRINTABLE FRAGMENT of expressions: trees the printer writes in a form the lexer model cuts into `fmtToks`
 and the parser model reads back as the same tree.  Outside: escaped names (inner `_`, `$`), float texts that are
-no float literal (`inf`, `NaN`, exponent forms), calls whose name has an underscore, the range sugar outside an
-iterator, opaque primitives (graphs, arrays other than integer arrays), strings with `"` or `\`, float / string
-indexes of compound variables, unknown block kinds. -/
+no float literal (`inf`, `NaN`, exponent forms), calls whose name has an underscore, opaque primitives (graphs,
+arrays other than integer arrays), strings with `"` or `\`, string indexes of compound variables that are name
+fragments (`_2`, written bare), unknown block kinds.  Since the repairs 10f80da / 7352fcb a `range(a, b, true)` call
+outside an iterator and a decimal or string index `x_{1.5}`, `x_{"a"}` are INSIDE. -/
 def coreExp : PExp → Bool
   | .int v => decide (v ≤ i64Max)
   | .num t => isFloatText t
@@ -132,7 +134,7 @@ def coreExp : PExp → Bool
   | .var n => plainVar n
   | .cvar n idx => isPlainRun n.toList && !idx.isEmpty && coreIdx idx
   | .access n idx => isPlainRun n.toList && n != "not" && !idx.isEmpty && coreList idx
-  | .call n args => !(isRangeSugar n args) && n != "not" && isFunctionName n && coreList args
+  | .call n args => n != "not" && isFunctionName n && coreList args
   | .block k es => Gen.blockKinds.any (fun e => e.2 == k) && (blockKindErr k es.length).isNone && !es.isEmpty && coreList es
   | .scoped k vs its b =>
     Gen.scopedKinds.any (fun e => e.2 == k) && !its.isEmpty && vs.length == its.length && vs.all printableIterVar
@@ -144,8 +146,8 @@ def coreList : List PExp → Bool
   | e :: es => coreExp e && coreList es
 def coreIdx : List PExp → Bool
   | [] => true
-  | .num _ :: _ => false
-  | .str _ :: _ => false
+  | .num t :: es => !(numIndexBare t) && coreExp (.num t) && coreIdx es
+  | .str s :: es => !(strIndexBare s) && coreExp (.str s) && coreIdx es
   | .var i :: es => isPlainRun i.toList && coreIdx es
   | e :: es => coreExp e && coreIdx es
 def coreIters : List PExp → Bool
